@@ -213,6 +213,19 @@ def _depth0(toks, start, idx):
     return d == 0
 
 
+# (description, module source): helper-attribute arguments that come out of macro_rules fragments
+FRAGMENT_PROGRAMS = [
+    ('macro_rules! m { ($e:expr) => { #[derive_ex(Default, Debug)] struct X { #[default($e)] a: u8 } } }  m!(1 + 2);',
+     'macro_rules! m { ($e:expr) => { #[::derive_ex::derive_ex(Default, Debug)] pub struct X { #[default($e)] pub a: u8 } } }\nm!(1 + 2);\npub fn run() {}'),
+     ('macro_rules! m { ($e:expr, $l:literal, $p:path, $t:ty) => { #[derive(Ex)] #[derive_ex(Default, Clone)] struct X { #[default($l)] a: $t, #[default($p)] b: u8, #[default($e)] c: String } } }  m!("s", 5, N7, u8);',
+     'pub const N7: u8 = 7;\nmacro_rules! m { ($e:expr, $l:literal, $p:path, $t:ty) => { #[derive(::derive_ex::Ex)] #[derive_ex(Default, Clone)] pub struct X { #[default($l)] pub a: $t, #[default($p)] pub b: u8, #[default($e)] pub c: String } } }\nm!(String::new(), 5, N7, u8);\npub fn run() {}'),
+    ('macro_rules! m { ($k:expr, $t:ty) => { #[derive_ex(PartialEq, Hash, PartialOrd)] enum E { A(#[partial_ord(key = $k)] $t), B } } }  m!(1u8, u8);',
+     'macro_rules! m { ($k:expr, $t:ty) => { #[::derive_ex::derive_ex(PartialEq, Hash, PartialOrd)] pub enum E { A(#[partial_ord(key = $k)] $t), B } } }\nm!(1u8, u8);\npub fn run() {}'),
+    ('macro_rules! m { ($t:ty, $b:path) => { #[derive_ex(Clone, Debug, bound($t: $b))] struct X<T>($t); } }  m!(T, Clone);',
+     'macro_rules! m { ($t:ty) => { #[::derive_ex::derive_ex(Clone, Debug, bound($t))] pub struct X<T>(pub $t); } }\nm!(T);\npub fn run() {}'),
+]
+
+
 class C16(Prop):
     pid = 'C16'
     tag = 'all parts + no panic + output re-parses + second run identical'
@@ -393,10 +406,28 @@ class C16(Prop):
                 failures.append(dict(**{'class': 'expansion-ill-formed-when-declared-through-macro_rules', 'mode': 'expand'},
                                      input=text, expected='the errors rustc reports for the directly written item, no more',
                                      observed=sorted(extra)[:3]))
+        # macro_rules FRAGMENTS inside helper attributes (`#[default($e)]` with `$e:expr` arrives as a None-delimited group,
+        # which no token stream parsed from text contains): the expansion must terminate - rustc must survive it
+        fmods = [l2.Module(7 * 10 ** 6 + k, src, text) for k, (text, src) in enumerate(FRAGMENT_PROGRAMS)]
+        rc, errs, raw = l2.compile_status('c16frag', fmods, '', '#![allow(warnings)]\n')
+        died = rc not in (0, 1) or any(w in ' '.join(raw) for w in ('SIGSEGV', 'overflowed its stack', 'SIGABRT', 'timed out'))
+        if died or any('panicked' in e for e in errs):
+            culprit = fmods[0]
+            for mo in fmods:            # find the program that kills the compiler
+                rc1, errs1, raw1 = l2.compile_status('c16frag1', [mo], '', '#![allow(warnings)]\n')
+                if rc1 not in (0, 1) or any('panicked' in e for e in errs1):
+                    culprit, raw, errs = mo, raw1, errs1
+                    break
+            l2.cleanup('c16frag1')
+            failures.append(dict(**{'class': 'expansion-does-not-terminate-or-panics-in-rustc', 'mode': 'expand'}, input=culprit.meta,
+                                 expected='rustc survives the expansion', observed=(raw + errs)[-4:]))
+        else:
+            validated += len(fmods)
+        l2.cleanup('c16frag')
         validated += (len(rmods) + len(vmods)) if not (rustc_panics or via_only) else 0
         return dict(evaluations=len(inputs) + len(rmods) + len(vmods), validated=validated, failures=failures, samples=samples,
                     seeds=len(tok_seeds), mutation_kinds=dict(kinds), outcome_stats=dict(stats),
-                    compiled_by_rustc=len(rmods) + len(vmods), rustc_panics=rustc_panics,
+                    compiled_by_rustc=len(rmods) + len(vmods) + len(fmods), rustc_panics=rustc_panics, fragment_programs=len(fmods),
                     declared_through_macro_rules=len(vmods), errors_only_through_macro_rules=via_only)
 
 
